@@ -366,3 +366,21 @@ def run_replay(path: str) -> int:
     print(f"  signature={v.signature}")
     print(f"  {v.message[:2000]}")
     return 1
+
+
+def draw_examples(strategy, n: int, seed: int):
+    """n examples of `strategy`, generated by Hypothesis under a fixed seed (generation only)."""
+    import hypothesis
+    from hypothesis import HealthCheck, Phase, given, settings
+
+    out = []
+
+    def collect(x):
+        out.append(x)
+
+    t = given(strategy)(collect)
+    t = settings(max_examples=n, database=None, deadline=None, phases=(Phase.generate,),
+                 suppress_health_check=list(HealthCheck))(t)
+    t = hypothesis.seed(shard_seed(seed, 0, "examples"))(t)
+    t()
+    return out[:n]
